@@ -152,4 +152,13 @@ def depotNodesB (nw : Network) : Bool :=
     nw.depotIdxOf (nw.endDepotNodeOf (nw.depotIdxOf n)) == nw.depotIdxOf n) &&
   ((nw.node (nw.endDepotNodeOf (default : Node).depot)).depot == (default : Node).depot)
 
+/-- the two network-level hypotheses of the C10/C01 tour theorems (`C17.DepotTimes`, `NodesWF'`), as
+    a check on a loaded network: depot nodes carry the artificial earliest/latest times and no node
+    ends before it starts -/
+def tourHypsB (nw : Network) : Bool :=
+  nw.allIdx.all (fun i =>
+    ((nw.node i).kind != .startDepot || (nw.node i).endT == .earliest) &&
+    ((nw.node i).kind != .endDepot || (nw.node i).startT == .latest) &&
+    ExtTime.le (nw.node i).startT (nw.node i).endT)
+
 end RSSched.Spec
